@@ -225,6 +225,8 @@ def gen_tree(rng, prof=None, depth=0, idgen=None, top=True, maxdepth=None):
                     job['ticker'] = rng.choice([1, 2])
             if rng.random() < p.get('p_sd_never', 0.04):
                 job['sdur'] = None
+            if rng.random() < 0.15:
+                job['sswallow'] = True
             if job.get('print'):
                 # a PrintJob always ends by itself and has a trivial co_shutdown()
                 if job['dur'] is None:
